@@ -218,10 +218,6 @@ package stackage
 //@ ensures[C01,C17:reset.cfg] wf(r) && cfgOf(r) == old(cfgOf(r))
 //@ ensures[:reset.own] arr(hdr(r)) == old(arr(hdr(r))) || fresh(arr(hdr(r)))
 //@ modifies Cell_stack[r], Mem_Val[fresh], F_nodeConfig_ldr[cfgOf(r)], G_held
-//@ loop 1 invariant wf(r) && cfgOf(r) == old(cfgOf(r)) && 0 <= i && i <= old(ulen(r))
-//@ loop 1 invariant arr(hdr(r)) == old(arr(hdr(r))) || fresh(arr(hdr(r)))
-//@ loop 1 invariant hdrsSameExcept(Cell_stack, old(Cell_stack), r, old(alloc))
-//@ loop 1 invariant memSameExcept(Mem_Val, old(Mem_Val), 0, old(alloc))
 
 //@ func (Stack).Reset
 //@ tags C01,C17
